@@ -144,6 +144,15 @@ def run(tier, rng, C):
         for c in cases:
             o = iobs.get(c['id'], '')
             if c['op'] == 'pyinv':
+                o, _, rusterrs = o.partition(' ## errs')
+                if o.startswith('raise ValueError'):
+                    # the ValueError of a failing inventory carries the message of a failing node's render
+                    toks = rusterrs.split()
+                    msgs = [unhx(t[1:]) for t in toks[1::2]]
+                    text = unhx(o.split(' ')[2]) if len(o.split(' ')) > 2 else ''
+                    if msgs and not any(mm in text for mm in msgs):
+                        fail(c, 'py:message-lost', 'the ValueError of the failing inventory (%r) does not carry the underlying message of any failing node (%r)'
+                             % (text[:150], msgs[0][:150]), o)
                 if o.startswith('raise '):
                     if o.startswith('raise TypeError') and 'unhashable' in unhx(o.split(' ')[2]):
                         fail(c, 'py:unhashable-key', 'a mapping with a list/mapping key cannot be converted to a dict (TypeError from as_dict())', o)
